@@ -30,3 +30,26 @@ def particlesToX (f : SchemaFile) : List Particle → List XNode
 end
 
 end ZeepVerif.Spec
+
+namespace ZeepVerif.Spec
+open ZeepVerif
+
+/-! ### attributes and complex types without derivation -/
+
+def AttrDecl.toX (f : SchemaFile) (a : AttrDecl) : XNode :=
+  .elem "attribute" ([⟨"name", none, a.name⟩, ⟨"type", none, renderTypeRef f a.ty⟩] ++
+    (if a.required then [⟨"use", none, "required"⟩] else [])) [] none []
+
+def attrsToX (f : SchemaFile) : List AttrDecl → List XNode
+  | [] => []
+  | a :: as => a.toX f :: .other :: attrsToX f as
+
+/-- `<xs:complexType name=…>` with its `sequence` (if any) and attributes, white space between the children
+    (`renderComponent` for a definition without base and without documentation) -/
+def ComplexDef.toX (f : SchemaFile) (name : String) (nss : List (Option String × String)) (cd : ComplexDef) : XNode :=
+  .elem "complexType" [⟨"name", none, name⟩] nss none
+    (.other :: (match cd.content with
+      | some (o, ps) => [.elem "sequence" (occAttrs o) [] none (particlesToX f ps), .other]
+      | none => []) ++ attrsToX f cd.attrs)
+
+end ZeepVerif.Spec
